@@ -397,3 +397,80 @@ def oriented(cmp, pred):
     if pred(b) and op in _MIRROR:
         return b, _MIRROR[op], a
     return None
+
+
+class NotEvaluable(Exception):
+    pass
+
+
+def ceval(node, env):
+    """value of a closed, side-effect free expression over literal values (numbers, strings, None, dicts, lists,
+    tuples) bound in env - used to evaluate guards for each representative of a finite case split.
+    Supports constants, names, subscripts, d.get(k[, default]), comparisons, and/or/not, conditional
+    expressions, unary minus, + - * on numbers, len(), tuples/lists.  Raises NotEvaluable otherwise; a KeyError /
+    IndexError of the evaluated expression is reported as NotEvaluable("raises")."""
+    try:
+        return _ceval(node, env)
+    except (KeyError, IndexError, TypeError) as e:
+        raise NotEvaluable("raises %s" % type(e).__name__)
+
+
+def _ceval(n, env):
+    if isinstance(n, ast.Constant):
+        return n.value
+    if isinstance(n, ast.Name):
+        if n.id in env:
+            return env[n.id]
+        raise NotEvaluable("free name %s" % n.id)
+    if isinstance(n, (ast.Tuple, ast.List)):
+        v = [_ceval(e, env) for e in n.elts]
+        return tuple(v) if isinstance(n, ast.Tuple) else v
+    if isinstance(n, ast.Subscript) and not isinstance(n.slice, ast.Slice):
+        return _ceval(n.value, env)[_ceval(n.slice, env)]
+    if isinstance(n, ast.UnaryOp):
+        v = _ceval(n.operand, env)
+        if isinstance(n.op, ast.Not):
+            return not v
+        if isinstance(n.op, ast.USub):
+            return -v
+        if isinstance(n.op, ast.UAdd):
+            return +v
+    if isinstance(n, ast.BoolOp):
+        if isinstance(n.op, ast.And):
+            v = True
+            for e in n.values:
+                v = _ceval(e, env)
+                if not v:
+                    return v
+            return v
+        v = False
+        for e in n.values:
+            v = _ceval(e, env)
+            if v:
+                return v
+        return v
+    if isinstance(n, ast.IfExp):
+        return _ceval(n.body, env) if _ceval(n.test, env) else _ceval(n.orelse, env)
+    if isinstance(n, ast.Compare):
+        left = _ceval(n.left, env)
+        for op, c in zip(n.ops, n.comparators):
+            right = _ceval(c, env)
+            r = {ast.Eq: lambda a, b: a == b, ast.NotEq: lambda a, b: a != b, ast.Lt: lambda a, b: a < b, ast.LtE: lambda a, b: a <= b,
+                 ast.Gt: lambda a, b: a > b, ast.GtE: lambda a, b: a >= b, ast.Is: lambda a, b: a is b, ast.IsNot: lambda a, b: a is not b,
+                 ast.In: lambda a, b: a in b, ast.NotIn: lambda a, b: a not in b}[type(op)](left, right)
+            if not r:
+                return False
+            left = right
+        return True
+    if isinstance(n, ast.BinOp) and isinstance(n.op, (ast.Add, ast.Sub, ast.Mult)):
+        a, b = _ceval(n.left, env), _ceval(n.right, env)
+        if isinstance(a, (int, float)) and isinstance(b, (int, float)):
+            return a + b if isinstance(n.op, ast.Add) else (a - b if isinstance(n.op, ast.Sub) else a * b)
+    if isinstance(n, ast.Call):
+        if isinstance(n.func, ast.Attribute) and n.func.attr == "get" and 1 <= len(n.args) <= 2 and not n.keywords:
+            d = _ceval(n.func.value, env)
+            if isinstance(d, dict):
+                return d.get(_ceval(n.args[0], env), _ceval(n.args[1], env) if len(n.args) == 2 else None)
+        if isinstance(n.func, ast.Name) and n.func.id == "len" and len(n.args) == 1:
+            return len(_ceval(n.args[0], env))
+    raise NotEvaluable(text(n)[:60])
